@@ -358,7 +358,14 @@ def run_case(spec, j):
     for e_i in pick:
       ev = tr[e_i]
       r, kink = ref(ev['L'])
-      if kink < 1e-4:
+      # (a central difference with step h moves a hinge argument
+      # 1 + |L(xi-xj)|^2 - |L(xi-xl)|^2 by up to 4 h |L| R^2, R the diameter
+      # of the data: with a start that stretches a direction 300-fold that
+      # is far more than the 1e-4 that suffices at unit scale - thorough
+      # sweep, seed 1, 'rungs' family)
+      R2 = float(((X.max(axis=0) - X.min(axis=0)) ** 2).sum())
+      band = max(1e-4, 8 * 1e-7 * np.linalg.norm(ev['L'], 2) * R2)
+      if kink < band:
         j.skip('C10.LMNN.gradient', 'near-hinge-kink')
         continue
       gfd = O.fd_gradient(lambda x: ref(x.reshape(ev['L'].shape))[0],
